@@ -469,7 +469,8 @@ def execute(cases, binary, workdir, tag="dev", jobs=8):
         # other traffic whenever the device wants to send, and a reader that takes its time; what the device emits must not
         # depend on that (the model knows nothing about queues)
         ops = "\n".join("\n".join(("cfg.end " + c.meta["sink"] if l == "cfg.end" and c.meta.get("sink") in ("slow", "stall") else l) for l in c.lines()) for c in part) + "\n"
-        rc, gout, glog = run_go(binary, ops, workdir, "%s-%d" % (tag, i))
+        # time limit of the runner process: 10 minutes, more for big batches (slow-sink cases take up to a second each)
+        rc, gout, glog = run_go(binary, ops, workdir, "%s-%d" % (tag, i), timeout=max(600, len(part) // 4))
         g = parse_outputs(gout)
         merged = []
         local = {}
